@@ -56,8 +56,11 @@ BagEq(a, b)   == Len(a) = Len(b) /\ \A x \in RangeOf(a) \cup RangeOf(b) : Count(
 UnitFields(u) == Split(u, "|")
 UnitOK(u) == LET f == UnitFields(u) IN Len(f) >= 5 /\ IsIntText(f[5])
 UnitInRange(u) == LET f == UnitFields(u) IN Len(IntBody(f[5])) <= 9        \* 32-bit guard (harness sanity)
-ResidueOf(u) == LET f == UnitFields(u) IN
-  [chain |-> Str(f[3]), number |-> IntOf(f[5]), icode |-> IF Len(f) >= 8 THEN Str(f[8]) ELSE "", name |-> Str(f[4])]
+\* the residue a well-formed unit id denotes: as character sequences, and with atomic strings
+ResidueChars(u) == LET f == UnitFields(u) IN
+  [chain |-> f[3], number |-> IntOf(f[5]), icode |-> IF Len(f) >= 8 THEN f[8] ELSE <<>>, name |-> f[4]]
+ResidueOf(u) == LET r == ResidueChars(u) IN
+  [chain |-> Str(r.chain), number |-> r.number, icode |-> Str(r.icode), name |-> Str(r.name)]
 
 \* "blank" | "comment" | "fewparts" | "badunit" | "data"
 LineKind(l) ==
@@ -95,8 +98,8 @@ ItemOf(x) == [cat |-> x.cat, cls |-> x.cls, list |-> x.list, type |-> x.type,
               r2 |-> [chain |-> x.c2, number |-> x.n2, icode |-> x.i2, name |-> x.r2]]
 
 \* clause by clause (R = recorded items, E = expected interactions)
-YieldsExactlyOne(R, E)   == \A x \in RangeOf(E) : x.cat # "other" => Count(R, x) = Count(E, x)
-UnknownKeptAsOther(R, E) == \A x \in RangeOf(E) : x.cat = "other" => Count(R, x) = Count(E, x)
+EachLineYieldsOne(R, E)  == \A x \in RangeOf(E) : x.cat # "other" => Count(R, x) = Count(E, x)
+OthersKept(R, E)         == \A x \in RangeOf(E) : x.cat = "other" => Count(R, x) = Count(E, x)
 NothingElse(R, E)        == \A x \in RangeOf(R) : x \in RangeOf(E)
 
 \* ------------------------------------------------------------------ DSSR
